@@ -1191,6 +1191,22 @@ theorem run_append (a b : List Op) : ∀ (s : St),
   | nil => intro s; simp [C13.run]
   | cons op rest ih => intro s; simp [C13.run, ih, List.append_assoc]
 
+theorem step_fst (s : St) (op : Op) : (C13.step s op).1 = (C13.stepCore s op).1 := by
+  unfold C13.step; simp only; split <;> rfl
+
+theorem mem_step_of_mem_core {s : St} {op : Op} {e : Ev} (h : e ∈ (C13.stepCore s op).2) :
+    e ∈ (C13.step s op).2 := by
+  unfold C13.step; simp only; split
+  · exact List.mem_append.mpr (Or.inl h)
+  · exact h
+
+/-- a step that leaves a handle alive reports exactly the events of its core -/
+theorem step_snd_of_refs {s : St} {op : Op} (h : (C13.stepCore s op).1.refs ≠ 0) :
+    (C13.step s op).2 = (C13.stepCore s op).2 := by
+  unfold C13.step; simp only; split
+  · rename_i hc; exact absurd hc.2 h
+  · rfl
+
 /-- the attached, not yet run continuation waits: source unfinished, referenced, context alive -/
 structure Waiting (s : St) (c : Cont) : Prop where
   refs : s.refs ≠ 0
@@ -1202,10 +1218,17 @@ theorem quiet_step {s : St} {c : Cont} {op : Op} (h : Waiting s c) (hq : Quiet c
     Waiting (C13.step s op).1 c ∧ (C13.step s op).2 = [] := by
   rcases hq with rfl | ⟨c', rfl, hne⟩
   · have hr := h.refs
-    simp only [C13.step, hr, if_false]
-    exact ⟨⟨by simp, h.unfinished, h.cont, h.alive⟩, trivial⟩
-  · simp only [C13.step]
-    refine ⟨⟨h.refs, h.unfinished, h.cont, ?_⟩, trivial⟩
+    have hcore : C13.stepCore s .copyHandle = ({ s with refs := s.refs + 1 }, []) := by
+      simp [C13.stepCore, hr]
+    have hrefs : (C13.stepCore s .copyHandle).1.refs ≠ 0 := by rw [hcore]; simp
+    rw [step_fst, step_snd_of_refs hrefs, hcore]
+    exact ⟨⟨by simp, h.unfinished, h.cont, h.alive⟩, rfl⟩
+  · have hcore : C13.stepCore s (.destroyCtx c') =
+        ({ s with dead := if c' = 0 then s.dead else c' :: s.dead }, []) := by
+      simp [C13.stepCore]
+    have hrefs : (C13.stepCore s (.destroyCtx c')).1.refs ≠ 0 := by rw [hcore]; exact h.refs
+    rw [step_fst, step_snd_of_refs hrefs, hcore]
+    refine ⟨⟨h.refs, h.unfinished, h.cont, ?_⟩, rfl⟩
     have ha := h.alive
     simp only [St.alive] at ha ⊢
     split
@@ -1232,20 +1255,25 @@ theorem runs_at_finish {s : St} {ctx : Nat} (quiet post : List Op) (v : Nat)
     (hq : ∀ op ∈ quiet, Quiet ctx op) :
     s.nextId ∈ ranIds (C13.run s (.thenOp ctx [] :: (quiet ++ .finish v :: post))).2 := by
   have heff : s.effCtx ctx = ctx := by simp [St.effCtx, ha]
-  have hstep : C13.step s (.thenOp ctx []) =
+  have hcore : C13.stepCore s (.thenOp ctx []) =
       ({ s with nextId := s.nextId + 1, cont := some { id := s.nextId, ctx := ctx, body := [] } }, []) := by
-    simp [C13.step, hr, hf, heff]
+    simp [C13.stepCore, hr, hf, heff]
+  have hrefs : (C13.stepCore s (.thenOp ctx [])).1.refs ≠ 0 := by rw [hcore]; exact hr
+  have hstep1 : (C13.step s (.thenOp ctx [])).1 =
+      { s with nextId := s.nextId + 1, cont := some { id := s.nextId, ctx := ctx, body := [] } } := by
+    rw [step_fst, hcore]
+  have hstep2 : (C13.step s (.thenOp ctx [])).2 = [] := by
+    rw [step_snd_of_refs hrefs, hcore]
   have hw : Waiting (C13.step s (.thenOp ctx [])).1 { id := s.nextId, ctx := ctx, body := [] } := by
-    rw [hstep]
+    rw [hstep1]
     exact ⟨hr, hf, rfl, ha⟩
   obtain ⟨hw2, e2⟩ := quiet_run quiet hw hq
   have hfin := Qx.C13.finish_delivers_to_attached (C13.run (C13.step s (.thenOp ctx [])).1 quiet).1
     { id := s.nextId, ctx := ctx, body := [] } v hw2.refs hw2.unfinished hw2.cont hw2.alive
-  simp only [C13.run, run_append, hstep, List.nil_append]
-  rw [hstep] at e2 hfin
+  have hmem := mem_step_of_mem_core (List.mem_of_mem_head? hfin.1)
+  simp only [C13.run, run_append, hstep2, List.nil_append]
   rw [e2, List.nil_append, ranIds_append, List.mem_append]
   left
-  have hmem := List.mem_of_mem_head? hfin.1
   simp only [ranIds, List.mem_filterMap]
   exact ⟨_, hmem, rfl⟩
 
